@@ -57,7 +57,10 @@ static std::string gen_int_field(Tape &t, int *kind, bool mtu)
 	*kind = (int)t.pick({5, 3, 3, 2});
 	switch (*kind) {
 	case 0: return std::to_string(mtu ? 201 + (int)t.below(1300) : (int)t.below(33));
-	case 1: return std::to_string(V[t.below(sizeof V / sizeof V[0])]);
+	case 1:
+		// values that only look valid after truncation to 16 or 32 bits: k * 2^16 + r, k * 2^32 + r and their negatives, r a valid value
+		if (t.chance(1, 3)) { long long r = mtu ? 201 + (long long)t.below(1300) : (long long)t.below(33); long long k = 1 + (long long)t.below(3); long long unit = t.chance(2, 3) ? 65536LL : 4294967296LL; return std::to_string(t.chance(1, 3) ? r - k * unit : r + k * unit); }
+		return std::to_string(V[t.below(sizeof V / sizeof V[0])]);
 	case 2: return std::to_string(mtu ? 1130 : 27) + SHELL[t.below(sizeof SHELL / sizeof SHELL[0])];
 	default: { std::string s; size_t n = t.below(12); for (size_t i = 0; i < n; i++) s += (char)("0123456789 -+x;$"[t.below(16)]); return s; }
 	}
@@ -102,8 +105,8 @@ static CaseResult unit_case(Tape &t)
 	ip = ip.substr(0, ip.find('\0')); other = other.substr(0, other.find('\0'));
 	static const long long NB[] = {-2147483647LL - 1, -1, 0, 1, 8, 24, 27, 30, 31, 32, 33, 64, 2147483647LL};
 	int netbits = t.chance(1, 2) ? (int)t.below(33) : (int)NB[t.below(13)];
-	static const long long MT[] = {-1, 0, 1, 200, 201, 1130, 1500, 1501, 65535, 4294967295LL};
-	unsigned mtu = t.chance(1, 2) ? 201 + t.below(1300) : (unsigned)MT[t.below(10)];
+	static const long long MT[] = {-1, 0, 1, 200, 201, 1130, 1500, 1501, 65535, 4294967295LL, 65536 + 201, 65536 + 1130, 65536 + 1500, 131072 + 1130, 4294902960LL, 4294967296LL - 65536 + 201, 256 + 200, 65536 + 200, 65536 + 1501};
+	unsigned mtu = t.chance(1, 2) ? 201 + t.below(1300) : (unsigned)MT[t.below(19)];
 	(void)k3;
 	bool bsd = t.chance(1, 2);
 	sim::W.unit_system.clear();
